@@ -37,6 +37,24 @@ pub fn fresh_dir(tag: &str) -> PathBuf {
 	d
 }
 
+/// Remove scratch directories left behind by processes that no longer exist (a killed run).
+pub fn gc_stale_scratch() {
+	let base = match scratch_root().parent() {
+		Some(b) => b.to_path_buf(),
+		None => return,
+	};
+	if let Ok(rd) = std::fs::read_dir(&base) {
+		for e in rd.flatten() {
+			let name = e.file_name().to_string_lossy().to_string();
+			if let Some(pid) = name.strip_prefix('p').and_then(|x| x.parse::<u32>().ok()) {
+				if !Path::new(&format!("/proc/{}", pid)).exists() {
+					let _ = std::fs::remove_dir_all(e.path());
+				}
+			}
+		}
+	}
+}
+
 pub fn cleanup_scratch_root() {
 	let _ = std::fs::remove_dir_all(scratch_root());
 }
